@@ -199,6 +199,10 @@ def pathParents (s : String) : List String :=
       if cs.isEmpty then [] else here :: go n cs'
   go comps.length comps
 
+/-- `str(pathlib.Path(s).parent)` -/
+def pathParent (s : String) : String :=
+  (pathParents s).head?.getD (if s.startsWith "/" then "/" else ".")
+
 def parseParentRef (r : String) : Option Nat :=
   if r = "parent" then some 0
   else if r.startsWith "parent(" && r.endsWith ")" then
@@ -233,12 +237,8 @@ def evalPath (w : World) (ref : String) (src : Option String) (args : List Strin
       match src with
       | none => .error .eval
       | some f =>
-        let ps := pathParents f
-        if ps.isEmpty then .error .eval
-        else if n ≥ ps.length then
-          let diff := n - ps.length + 1
-          .ok (.pathv (normpath (joinpath (ps.getLast?.getD ".") (List.replicate diff ".." ++ args))))
-        else .ok (.pathv (normpath (joinpath (ps[n]?.getD ".") args)))
+        -- `src.parent.joinpath(*['..'] * n, *args)`: up from the folder of the file, folded by the final normpath
+        .ok (.pathv (normpath (joinpath (pathParent f) (List.replicate n ".." ++ args))))
     | none =>
       match parseAbsRef ref with
       | some a => .ok (.pathv (normpath (joinpath a args)))
